@@ -185,6 +185,8 @@ def call(f, *a, **k):
         f = getattr(f.__self__.resolve(), f.__name__)
     if isinstance(f, _LRU_TYPE):
         return _lru_call(f, a, k)
+    if f is builtins.range and RANGE_CAP["n"] and len(a) == 1 and isinstance(a[0], int) and a[0] > RANGE_CAP["n"] and a[0] == RANGE_CAP["of"]:
+        return builtins.range(RANGE_CAP["n"])
     if f is builtins.int:
         return models.model_int(*a, **k)
     if f is builtins.str:
@@ -452,6 +454,9 @@ def _lru_call(f, a, k):
     v = f.__wrapped__(*a, **k)
     store.append((key, v))
     return v
+
+
+RANGE_CAP = {"n": 0, "of": 100}  # harness hook: a retry loop `range(of)` is explored for n iterations only
 
 
 EXTERNAL_MODELS = {}
